@@ -21,7 +21,12 @@ class MixinB:
 
 
 def build(d, *, schema_kw=None, ops_kw=None, doc_kw=None, config=None, calls_per_op=2,
-          mixins=False, omit_p=0.5, config_desc_fn=None, desc_hook=None):
+          mixins=False, omit_p=0.5, config_desc_fn=None, desc_hook=None, subscriptions_if_async=False):
+    if subscriptions_if_async and (config or {}).get("async_client", True) and d.bool(0.5):
+        # subscriptions need the asynchronous client (a synchronous one is a documented refusal)
+        schema_kw = dict(schema_kw or {}, subscription=True)
+        doc_kw = dict(doc_kw or {}, kinds=tuple((doc_kw or {}).get("kinds", ("query", "mutation"))) + ("subscription",))
+        d.tag("cfg.subscriptions")
     desc = gen_schema(d, **(schema_kw or {}))
     if desc_hook is not None:
         desc_hook(d, desc)
